@@ -679,6 +679,9 @@ func ruleForwarders(c *Ctx, pkgs ...string) {
 				if (e.Kind == "call" || e.Kind == "invoke") && e.Callee != nil && isPikeFunc(e.Callee) && e.Callee.Name() != fs.conv && !inPkg(e.Callee, "log") {
 					calls = append(calls, e)
 				}
+				if e.Kind == "store" && e.Addr != nil && sliceBase(e.Addr).contains(func(x *Term) bool { return x.Op == "alloc" }) && !e.Addr.contains(func(x *Term) bool { return x.Op == "sym" || x.Op == "global" }) {
+					continue // filling a local (the argument list of a log call)
+				}
 				if e.Kind == "go" || e.Kind == "defer" || e.Kind == "store" {
 					bad = append(bad, "does more than forward ("+e.Kind+")")
 				}
@@ -906,6 +909,10 @@ func ruleConfigClients(c *Ctx) {
 									cn = e.Method.FullName()
 								}
 								if strings.Contains(cn, "zap.") || strings.Contains(cn, "/log.") {
+									continue
+								}
+								if strings.HasPrefix(cn, "path/filepath.") || strings.HasPrefix(cn, "path.") || strings.HasPrefix(cn, "strings.") {
+									bad = append(bad, "the client's location is rewritten by "+cn+" before it is used: this method no longer addresses the location the others read and write (a watch on the directory, a cleaned path compared with the raw one, …) on "+where)
 									continue
 								}
 								perImpl[recvName][m.Name()] = append(perImpl[recvName][m.Name()], use{a.Args[0].Name, cn})
